@@ -100,12 +100,14 @@ Proof. exact set_stream_parse. Qed.
 
 (* the boolean predicate the correspondence driver evaluates on the implementation's bytes is
    the property (sound), and the model's output satisfies it (complete) *)
-Theorem C09_frame_says_sound : forall cd c tr r f, frame_says cd c tr r f = true ->
+Theorem C09_frame_says_sound : forall cd c tr st r f, frame_says cd c tr st r f = true ->
   exists h, parse_frame cd c (uses_mid r) f = Ok (h, r) /\ h_version h = 4 /\ h_opcode h = opcode r /\
-            h_length h + 9 = blen f /\ h_flags h = frame_flags (is_some c) tr /\ h_stream h = 0%Z.
+            h_length h + 9 = blen f /\ h_flags h = frame_flags (is_some c) tr /\ h_stream h = st.
 Proof. exact frame_says_sound. Qed.
 Theorem C09_frame_says_complete : forall cd tr r f,
-  req_wf r -> encode_request cd None tr r = Ok f -> frame_says cd None tr r f = true.
+  req_wf r -> encode_request cd None tr r = Ok f ->
+  frame_says cd None tr 0 r f = true /\
+  forall st, (- 2 ^ 15 <= st < 2 ^ 15)%Z -> frame_says cd None tr st r (set_stream st f) = true.
 Proof. exact frame_says_complete. Qed.
 
 (* Bodies around 4 GiB, on the request shape of the tie's `L` cases (an uncompressed BATCH of n
@@ -123,6 +125,21 @@ Theorem C09_uniform_batch : forall cd text n,
              = Err (ErrBodyTooLong b) /\ 4294967296 <= b
   end.
 Proof. exact uniform_batch. Qed.
+
+(* What make / compress_append(LZ4) do with ANY payload as far as sizes go (the tie's `M` cases use
+   payloads of 2^32-1, 2^32, 2^32+5 untouched zero bytes): [size_outcome]. *)
+Theorem C09_make_sizes : forall fl op payload,
+  match size_outcome (blen payload) with
+  | Ok b => exists f, make_frame fl op payload = Ok f /\ blen f = 9 + b /\ be_dec (firstn 4 (skipn 5 f)) = b
+  | Err b => make_frame fl op payload = Err (ErrBodyTooLong b) /\ 4294967296 <= b
+  end.
+Proof. exact make_sizes. Qed.
+Theorem C09_lz4_sizes : forall cd body,
+  match size_outcome (blen body) with
+  | Ok b => compress_append cd Lz4 body = Ok (be 4 b ++ lz4_compress cd body)
+  | Err b => compress_append cd Lz4 body = Err (ErrBodyTooLong b)
+  end.
+Proof. exact lz4_sizes. Qed.
 
 (* ---- non-vacuity: concrete requests meeting the hypotheses, with non-trivial outputs ---- *)
 Definition ex_codec : codec :=
@@ -192,6 +209,66 @@ Proof. repeat split; vm_compute; reflexivity. Qed.
 Example C09_ex_big : blen (repeat 115 (N.to_nat 1073741824)) = 1073741824.
 Proof. unfold blen. rewrite repeat_length. apply N2Nat.id. Qed.
 
+(* ---- anchors: the specification parser, the driver's predicates and the size functions evaluated
+   on concrete inputs, INCLUDING rejecting ones (a later weakening of a definition breaks a pin) ---- *)
+Definition ex_plain_frame : bytes :=      (* QUERY "S", LOCAL_QUORUM, no options *)
+  [4; 0; 0; 0; 7;  0; 0; 0; 8;  0; 0; 0; 1; 83;  0; 6;  0].
+Definition ex_plain_query : request := Query [83] (mkQP LocalQuorum None None None None false []).
+Example C09_anchor_parser :
+  parse_frame ex_codec None false ex_plain_frame = Ok (mkHeader 4 0 0 7 8, ex_plain_query) /\
+  (* response direction / other version *)
+  parse_frame ex_codec None false (132 :: tl ex_plain_frame) = Err PBadVersion /\
+  parse_frame ex_codec None false (5 :: tl ex_plain_frame) = Err PBadVersion /\
+  (* length field <> body size, trailing byte inside the announced length, short frame *)
+  parse_frame ex_codec None false (ex_plain_frame ++ [0]) = Err PBadLength /\
+  parse_frame ex_codec None false [4; 0; 0; 0; 7; 0; 0; 0; 9; 0; 0; 0; 1; 83; 0; 6; 0; 0] = Err PTrailing /\
+  parse_frame ex_codec None false [4; 0; 0; 0; 7; 0; 0; 0] = Err PTooShort /\
+  (* custom-payload flag, compression flag without negotiated compression, unknown opcode *)
+  parse_frame ex_codec None false [4; 4; 0; 0; 7; 0; 0; 0; 8; 0; 0; 0; 1; 83; 0; 6; 0] = Err PBadFlags /\
+  parse_frame ex_codec None false [4; 1; 0; 0; 7; 0; 0; 0; 8; 0; 0; 0; 1; 83; 0; 6; 0] = Err PNoCompression /\
+  parse_frame ex_codec None false [4; 0; 0; 0; 8; 0; 0; 0; 0] = Err PBadOpcode /\
+  (* query flags: paging-state flag + null [bytes], values flag + n = 0 (non-canonical), names flag,
+     unknown flag bit; consistency 11; serial consistency QUORUM; value length -3 *)
+  parse_frame ex_codec None false
+    [4; 0; 0; 0; 7; 0; 0; 0; 12; 0; 0; 0; 1; 83; 0; 6; 8; 255; 255; 255; 255] = Err PNonCanonicalFlags /\
+  parse_frame ex_codec None false
+    [4; 0; 0; 0; 7; 0; 0; 0; 10; 0; 0; 0; 1; 83; 0; 6; 1; 0; 0] = Err PNonCanonicalFlags /\
+  parse_frame ex_codec None false [4; 0; 0; 0; 7; 0; 0; 0; 8; 0; 0; 0; 1; 83; 0; 6; 64] = Err PNamedValues /\
+  parse_frame ex_codec None false [4; 0; 0; 0; 7; 0; 0; 0; 8; 0; 0; 0; 1; 83; 0; 6; 128] = Err PBadQueryFlags /\
+  parse_frame ex_codec None false [4; 0; 0; 0; 7; 0; 0; 0; 8; 0; 0; 0; 1; 83; 0; 11; 0] = Err PBadConsistency /\
+  parse_frame ex_codec None false
+    [4; 0; 0; 0; 7; 0; 0; 0; 10; 0; 0; 0; 1; 83; 0; 6; 16; 0; 4] = Err PBadSerialConsistency /\
+  parse_frame ex_codec None false
+    [4; 0; 0; 0; 7; 0; 0; 0; 14; 0; 0; 0; 1; 83; 0; 6; 1; 0; 1; 255; 255; 255; 253] = Err PBadValueLength /\
+  (* batch: type 3, statement kind 2, flag 0x40; register: unknown event *)
+  parse_frame ex_codec None false [4; 0; 0; 0; 13; 0; 0; 0; 6; 3; 0; 0; 0; 1; 0] = Err PBadBatchType /\
+  parse_frame ex_codec None false [4; 0; 0; 0; 13; 0; 0; 0; 4; 0; 0; 1; 2] = Err PBadStatementKind /\
+  parse_frame ex_codec None false [4; 0; 0; 0; 13; 0; 0; 0; 6; 0; 0; 0; 0; 1; 64] = Err PBadBatchFlags /\
+  parse_frame ex_codec None false [4; 0; 0; 0; 11; 0; 0; 0; 5; 0; 1; 0; 1; 88] = Err PBadEvent.
+Proof. repeat split; vm_compute; reflexivity. Qed.
+Example C09_anchor_frame_says :
+  frame_says ex_codec None false 0 ex_plain_query ex_plain_frame = true /\
+  (* wrong stream, tracing asked but not flagged, another consistency asked, skip_metadata asked *)
+  frame_says ex_codec None false 5 ex_plain_query ex_plain_frame = false /\
+  frame_says ex_codec None true 0 ex_plain_query ex_plain_frame = false /\
+  frame_says ex_codec None false 0 (Query [83] (mkQP Quorum None None None None false [])) ex_plain_frame = false /\
+  frame_says ex_codec None false 0 (Query [83] (mkQP LocalQuorum None None None None true [])) ex_plain_frame = false /\
+  (* a value asked for that is not on the wire; a truncated frame *)
+  frame_says ex_codec None false 0 (Query [83] (mkQP LocalQuorum None None None None false [CNull])) ex_plain_frame = false /\
+  frame_says ex_codec None false 0 ex_plain_query (removelast ex_plain_frame) = false /\
+  frame_says ex_codec None false (-2) ex_plain_query (set_stream (-2) ex_plain_frame) = true.
+Proof. repeat split; vm_compute; reflexivity. Qed.
+Example C09_anchor_predicates :
+  oversize ex_query = false /\ oversize ex_batch = false /\ body_too_long ex_query = false /\
+  batch_counts_match ex_batch = true /\
+  batch_counts_match (Batch Logged [SPrepared [1]] [] One None None) = false /\
+  oversize (Startup [(repeat 107 (N.to_nat 65536), [])]) = true /\
+  oversize (Startup [(repeat 107 (N.to_nat 65535), [])]) = false /\
+  oversize (Register (repeat EvStatus (N.to_nat 65536))) = true /\
+  size_outcome 4294967295 = Ok 4294967295 /\ size_outcome 4294967296 = Err 4294967296 /\
+  uses_mid ex_execute = true /\ uses_mid ex_query = false.
+Proof. repeat split; vm_compute; reflexivity. Qed.
+
 Print Assumptions C09_parse_encode.
 Print Assumptions C09_plain_body.
 Print Assumptions C09_compressed.
@@ -207,3 +284,5 @@ Print Assumptions C09_frame_says_complete.
 Print Assumptions C09_body_too_long.
 Print Assumptions C09_payload_too_long.
 Print Assumptions C09_uniform_batch.
+Print Assumptions C09_make_sizes.
+Print Assumptions C09_lz4_sizes.
